@@ -223,6 +223,19 @@ def run(ctx: Ctx):
             bad = bad or (labs, "more than one fill on a path")
     col.ob("G10", "S4", f"{rel}::spec_augment_apply_parameters::only-resample-then-one-zero-fill", bad is None,
            f"{bad[1]}: {bad[0]}" if bad else "", rel, app.line, sample=sorted(map(list, sigs))[:6])
+    # every drawn band is zeroed and nothing else (props/c08_masks.py): the apply function walked with abstract values for each of
+    # the four (time masking drawn?) x (frequency masking drawn?) combinations; at every exit the masks handed to the zero fill
+    # cover exactly the drawn bands - whether the masks are merged first, filled one after the other, or steered by flags.
+    from .c08_masks import Undecided as _MUnd, mask_table
+    try:
+        mbad, mexits = mask_table(app.node, names)
+        col.floor("apply_mask_exits", mexits, 4)
+        col.ob("G10", "S4", f"{rel}::spec_augment_apply_parameters::every-built-mask-is-applied", not mbad,
+               (f"with time masking {'drawn' if mbad[0][0]['time'] else 'off'} and frequency masking {'drawn' if mbad[0][0]['freq'] else 'off'} an exit is "
+                f"reached where the zero fill covers {mbad[0][2] or 'nothing'} (masks built on the way: {mbad[0][1] or 'none'}): the drawn bands are "
+                f"not exactly the zeroed ones in that combination") if mbad else "", rel, app.line, sample=dict(exits=mexits, bad=len(mbad)))
+    except _MUnd as e:
+        col.undecided(f"{rel}::spec_augment_apply_parameters: the masking part is outside the interpreted fragment ({e})")
     # resampling happens only when a warp was drawn (guard derives from the warp slots being non-empty)
     pma = parent_map(app.node)
     gs = [n for n in own_nodes(app.node) if isinstance(n, ast.Call) and call_name(n).endswith("grid_sample")]
